@@ -163,7 +163,10 @@ Definition b_clear_ckpt (b : bundler) : bundler :=        (* clear_checkpoint *)
      breads := breads b; bseq := bseq b; bseqcopy := []; bdescs := bdescs b; bintr := bintr b; bcached := bcached b |}.
 
 Definition b_rewind (b : bundler) : bundler :=            (* rewind *)
-  let seq0 := bseqcopy b in
+  let seq0 := match alookup INTR (bseq b) with            (* the interruptions counter is kept *)
+              | Some n => aset INTR n (bseqcopy b)
+              | None => bseqcopy b
+              end in
   let fill := fun (acc : list (nat * nat) * list (nat * nat)) (d : nat * list nat) =>
                 if amem (fst d) (fst acc) then acc
                 else (aset (fst d) 1 (fst acc), aset (fst d) 1 (snd acc)) in
@@ -539,7 +542,12 @@ Definition frame_resume (f : frame P) (i : input) : outcome (frame P) * list obs
       end
   | FSingle m started =>
       match i with
-      | Send v => if started then (Returned v, []) else (Yielded m (FSingle m true), [])
+      | Send v =>
+          if started then (Returned v, [])
+          else match v with
+               | VNone => (Yielded m (FSingle m true), [])
+               | _ => (Raised ETypeError, [])      (* can't send non-None value to a just-started generator *)
+               end
       | Throw e => (Raised e, [])
       | Close => (Raised EGeneratorExit, [])
       end
@@ -632,7 +640,7 @@ Definition exec_cmd (s : st) (m : msg) : st * cres * list obs :=
       | None => (s, Done (RExn EIMS), [])
       | Some b =>
           let st_ := match es with Some x => x | None => XSuccess end in
-          let s1 := set_bundlers s (aremove (mrun m) (bundlers s)) in
+          let s1 := reset_checkpoint (set_bundlers s (aremove (mrun m) (bundlers s))) in   (* closing a run is a checkpoint *)
           (s1, Done (RVal (VUid (buid b))), [ODoc (DStop (buid b) st_ rs (num_events b))])
       end
   | CCreate name =>
@@ -999,7 +1007,7 @@ Fixpoint drive (fuel : nat) (s : st) (c : ctl) (os : list obs) : st * list obs :
     end
   end.
 
-Definition FUEL (s : st) : nat := 3 * List.length (plans s) + 12.
+Definition FUEL (s : st) : nat := 4 * List.length (plans s) + 16.
 
 (* one step of the `_run` task *)
 Definition task_step (s : st) : st * list obs :=
@@ -1144,11 +1152,11 @@ Definition step (s : st) (e : event) : st * list obs :=
       match e3 with
       | Some x => let '(s4, o4) := req_result s3 (Some x) in (s4, o3 ++ o4)
       | None =>
-          let s4 := push_frame s3 (FSingle (mk (CStartSuspender sid pre post)) false) in
-          if rstate_eqb (state s4) Paused then let '(s5, o5) := req_result s4 None in (s5, o3 ++ o5)
-          else match set_state s4 Suspending with
-               | None => let '(s5, o5) := req_result s4 (Some ETransition) in (s5, o3 ++ o5)
-               | Some (s5, o5) => let '(s6, o6) := req_result (cancel_task s5) None in (s6, o3 ++ o5 ++ o6)
+          let fr := FSingle (mk (CStartSuspender sid pre post)) false in
+          if rstate_eqb (state s3) Paused then let '(s5, o5) := req_result (push_frame s3 fr) None in (s5, o3 ++ o5)
+          else match set_state s3 Suspending with
+               | None => let '(s5, o5) := req_result s3 (Some ETransition) in (s5, o3 ++ o5)   (* refused as a whole *)
+               | Some (s5, o5) => let '(s6, o6) := req_result (cancel_task (push_frame s5 fr)) None in (s6, o3 ++ o5 ++ o6)
                end
       end
   | EvMain a =>
